@@ -184,7 +184,7 @@ def workload(ctx, lentil):
     rng = ctx.rng
     dft2, idft2 = lentil.fourier.dft2, lentil.fourier.idft2
     hi = 24 if ctx.tier == 'quick' else 64
-    ncases = 260 if ctx.tier == 'quick' else 1500
+    ncases = ctx.count(260, 1500)
     coords_fn = lentil.fourier._dft2_coords
     seen_keys = set()
     recent = []
@@ -257,7 +257,7 @@ def workload(ctx, lentil):
         ctx.bucket('cache:evict')
 
     # full-period round trips and Parseval, both flags
-    nrt = 60 if ctx.tier == 'quick' else 300
+    nrt = ctx.count(60, 300)
     for i in range(nrt):
         m, n = _shape(rng, hi)
         f = _rand_complex(rng, (m, n))
